@@ -161,7 +161,7 @@ func (b *Bytes) store(addr model.Addr, bs []byte) int {
 
 	b.blocks[idx] = byteBlock{
 		begin: addr,
-		bytes: bs[:end-addr],
+		bytes: append([]byte(nil), bs[:end-addr]...),
 	}
 
 	return int(end - addr)
